@@ -164,6 +164,13 @@ def run_impl(cfg, workdir, sampler_hook=None, reuse=None, tag="run"):
         if os.path.exists(f_):
             os.remove(f_)
     r.filename = fname
+    if cfg.get("stale"):
+        # an earlier, unrelated run already wrote a samples file at this path (the main run overwrites it with consent)
+        sd = cfg["stale"]
+        with contextlib.redirect_stdout(io.StringIO()), numpy.errstate(all="ignore"):
+            S.RWMH(seed=sd["seed"]).sample(fname, hmclab.Distributions.Normal(numpy.zeros((sd["d"], 1)), numpy.ones((sd["d"], 1))),
+                                           proposals=sd["P"], online_thinning=sd["t"], overwrite_existing_file=True, disable_progressbar=True)
+        numpy.seterr(all="warn")
     kwargs = dict(initial_model=m0.copy(), proposals=cfg["P"], online_thinning=cfg["t"],
                   overwrite_existing_file=True, autotuning=cfg["tune"], target_acceptance_rate=cfg["target"],
                   learning_rate=cfg["lr"], disable_progressbar=True)
